@@ -1,4 +1,77 @@
-import LabreaModel.Eval
+/-
+  C10 — validate, keys and evaluate agree about whether options suffice.
+
+  FULL STATEMENT (kept visible): for every expression whose bodies are total and whose option values lie in
+  their domains, validate(o), keys(o) and evaluate(o) succeed or fail together, cold and warm; and a passing
+  validate(o) excludes a missing-option failure of evaluate(o) for arbitrary bodies.
+  It is FALSE in general on the current tree (known findings F9 effects reading options, F20 transformed auto
+  members, F21 AllOptions on dangling templates, F22 brace re-substitution: witnesses below); the agreement on
+  all generated graphs is decided on the implementation by the C10 oracle.  Proved here (`…_partial`): the
+  agreement at the leaves and the structural facts that validation / key inspection of the strict combinators
+  run no user code.
+-/
+import LabreaModel.MonadLemmas
 namespace Labrea
-theorem c10_placeholder : True := trivial
+
+variable (env : Env) (run : Run) (n id : Nat) (key : String) (o : V)
+
+/-- an absent Option without default: all three operations fail, with the same missing-key error -/
+theorem agree_absent_option_partial (self : Expr) (s : St) (hk : getDotted key o = .keyErr) :
+    (∃ s1, optionOp env run n self id key Option.none Option.none .evaluate o s = some (.error [keyNotFound id key], s1)) ∧
+    (∃ s2, optionOp env run n self id key Option.none Option.none .validate o s = some (.error [keyNotFound id key], s2)) ∧
+    (∃ s3, optionOp env run n self id key Option.none Option.none .keys o s = some (.error [keyNotFound id key], s3)) := by
+  refine ⟨⟨{ s with events := .read key :: s.events }, by simp [optionOp, readKey, bind_run, hk]⟩,
+    ⟨{ s with events := .read key :: s.events }, by simp [optionOp, existsKey, readKey, bind_run, hk]⟩,
+    ⟨{ s with events := .read key :: s.events }, by simp [optionOp, existsKey, readKey, bind_run, hk]⟩⟩
+
+/-- a present Option validates by evaluating itself (through its own request): validate succeeds exactly when
+    evaluate does, and fails with evaluate's failure -/
+theorem validate_present_is_evaluate_partial (self : Expr) (dflt dom : Option Expr) (raw : V) (s : St)
+    (hk : getDotted key o = .found raw) :
+    optionOp env run n self id key dflt dom .validate o s =
+      (do let _ ← run .evaluate self o; pure V.none : M V) { s with events := .read key :: s.events } := by
+  simp [optionOp, existsKey, readKey, bind_run, hk]
+
+/-- validating an application validates its parts and runs no user code: the function value is never called -/
+theorem validate_apply_structural (i : Nat) (x f : Expr) :
+    nodeOp env run n .validate (.apply i x f) o = (do let _ ← run .validate x o; let _ ← run .validate f o; pure V.none) := by
+  cases x <;> simp [nodeOp]
+
+/-- keys of an application are the union of the keys of its parts; no user code -/
+theorem keys_apply_structural (i : Nat) (x f : Expr) :
+    nodeOp env run n .keys (.apply i x f) o = (do let a ← run .keys x o; let b ← run .keys f o; pure (unionV a b)) := by
+  cases x <;> simp [nodeOp]
+
+/-- `Cached.validate` skips the inner validation only when the entry exists -/
+theorem cached_validate (x : Expr) (c : Nat) (s s1 : St) (b : Bool) (he : existsReq env run x c o s = some (.ok b, s1)) :
+    cachedOp env run x c .validate o s = if b then some (.ok .none, s1) else run .validate x o s1 := by
+  cases b <;> simp [cachedOp, bind_run, he]
+
+/-! ### witnesses of the known deviations (kernel-evaluated on the model, replayed on the code by the corpus) -/
+def c10Env : Env :=
+  { β := fun f a k => .ok (.app f a k), binds := fun _ _ => .error "x", ov := fun _ => default, ds := fun _ => default,
+    cacheKind := fun _ => .memory }
+
+def okOf (r : Option (Except Err V × St)) : Option Bool := r.map fun p => match p.1 with | .ok _ => true | .error _ => false
+
+/-- F21: `AllOptions` on `{'A': '{Q}'}` — keys succeed, evaluate and validate fail -/
+theorem deviation_F21 :
+    okOf (ev c10Env 10 .keys (.allOptions 1) (.dict [("A", .str "{Q}")]) {}) = some true ∧
+    okOf (ev c10Env 10 .evaluate (.allOptions 1) (.dict [("A", .str "{Q}")]) {}) = some false ∧
+    okOf (ev c10Env 10 .validate (.allOptions 1) (.dict [("A", .str "{Q}")]) {}) = some false := by
+  refine ⟨?_, ?_, ?_⟩ <;> decide +kernel
+
+/-- F22: `Template('x{S}')` with a section under `S` — validate and keys succeed, evaluate fails -/
+theorem deviation_F22 :
+    okOf (ev c10Env 10 .validate (.template 1 "x{S}" []) (.dict [("S", .dict [("a", .int 1)])]) {}) = some true ∧
+    okOf (ev c10Env 10 .keys (.template 1 "x{S}" []) (.dict [("S", .dict [("a", .int 1)])]) {}) = some true ∧
+    okOf (ev c10Env 10 .evaluate (.template 1 "x{S}" []) (.dict [("S", .dict [("a", .int 1)])]) {}) = some false := by
+  refine ⟨?_, ?_, ?_⟩ <;> decide +kernel
+
+/-- and an agreeing case: all three succeed / all three fail -/
+example : okOf (ev c10Env 10 .validate (.template 1 "x{A}" []) (.dict [("A", .int 1)]) {}) = some true ∧
+    okOf (ev c10Env 10 .keys (.template 1 "x{A}" []) (.dict [("A", .int 1)]) {}) = some true ∧
+    okOf (ev c10Env 10 .evaluate (.template 1 "x{A}" []) (.dict [("A", .int 1)]) {}) = some true := by
+  refine ⟨?_, ?_, ?_⟩ <;> decide +kernel
+
 end Labrea
